@@ -74,6 +74,7 @@ def RegOp.target : RegOp → Nat
   | .addRecord id _ _ _ => id
   | .setLimit id _ => id
   | .runSearch id _ => id
+  | .clearStore id => id
 
 def Registry.run (S : Sorter) (P : Prog) (envs : Nat → Env) (g : Registry) (ops : List RegOp) : Registry :=
   ops.foldl (Registry.step S P envs) g
@@ -117,6 +118,9 @@ theorem step_other (S : Sorter) (P : Prog) (envs : Nat → Env) (g : Registry) (
     · split
       · exact ⟨amGet_amSet_other _ _ _ _ hj, amGet_amSet_other _ _ _ _ hj⟩
       · exact ⟨rfl, rfl⟩
+    · split
+      · exact ⟨amGet_amSet_other _ _ _ _ hj, rfl⟩
+      · exact ⟨rfl, rfl⟩
 
 /-! ### the per-id projection -/
 
@@ -133,6 +137,7 @@ def projStep (P : Prog) (envs : Nat → Env) (id : Nat) (p : Option (Nat × List
     p.map (fun x => (x.1, x.2 ++ [StoreOp.add recId (tokenizeRecord P (envs x.1) title) rating]))
   | .setLimit _ n => p.map (fun x => (x.1, x.2 ++ [StoreOp.setLimit n]))
   | .runSearch _ query => p.map (fun x => (x.1, x.2 ++ [StoreOp.search (tokenizeQuery P (envs x.1) query)]))
+  | .clearStore _ => p.map (fun x => (x.1, x.2 ++ [StoreOp.clear]))
 
 def projFrom (P : Prog) (envs : Nat → Env) (id : Nat) (p : Option (Nat × List StoreOp)) (ops : List RegOp) :
     Option (Nat × List StoreOp) := ops.foldl (projStep P envs id) p
